@@ -121,6 +121,26 @@ def check(cx):
             if not base.endswith('process_away') or e.data['lhs'] != field(user(CONN_NICK), 'away'):
                 r5.violation('%s|writes-away' % short_fn(fn), 'away state written outside AWAY / for a foreign user', loc=cx.loc(e.node))
 
+    # AWAY <text> stores exactly that text (also when one was stored before), AWAY without text clears it, 306 / 305 accordingly
+    fa = cx.fn('process_away')
+    TXT = ('param', 'text')
+    wa = cx.walk(fa, args=[SELF, CONN, TXT], key='c10')
+    place = field(user(CONN_NICK), 'away')
+    given = is_some(TXT)
+    writes = []
+    for e, x in effects(wa, prog):
+        if x['place'] == place or (x['op'] != 'assign' and x['args'] and False):
+            for c_, leaf in term_cases(x['value']) if x['op'] == 'assign' else [(T, None)]:
+                if sat(And(e.pc, c_)) is not None:
+                    writes.append((And(e.pc, c_), x['op'], leaf, e))
+    r5.instance('AWAY <text> stores the text, AWAY clears it')
+    set_ok = any(op == 'assign' and v == ('some', ('some_of', TXT)) and equivalent(pc_, given)[0] for pc_, op, v, e in writes)
+    clr_ok = any(op == 'assign' and v == ('none',) and equivalent(pc_, Not(given))[0] for pc_, op, v, e in writes)
+    other = [(op, e) for pc_, op, v, e in writes if not (op == 'assign' and (v == ('some', ('some_of', TXT)) or v == ('none',)))]
+    if not set_ok or not clr_ok or other:
+        r5.violation('process_away|stored-text', 'AWAY does not store exactly the given text whenever one is given (and clear it otherwise): '
+                     'a PRIVMSG to the user is then answered with a text other than the current away text', loc=fa)
+
     # ---- is_voice body
     r6 = cx.rule('R10.6', 'is_voice predicate body', floor=1, kind='equivalence')
     wv = cx.walk(cx.fn('is_voice'), args=[('param', 'self')])
